@@ -13,12 +13,12 @@ from mc.engine import Family, Res
 PROP = 'C19'
 LEVEL = 'exploration'
 ASSUMPTIONS = [
-    'finite domains: qubits {0,1,2} x the four channel kinds; the 17 Surface-17 names plus adversarial names; sequences up to length 6 over 3 letters',
+    'finite domains: qubits {0,1,300} x the four channel kinds; the 17 Surface-17 names plus adversarial names (longer, lower-case, empty, trailing blank, hyphenated); sequences up to length 6 over 3 letters',
     'edges between a qubit and itself are not edges and are excluded',
     'the identifier part is repeated in fresh interpreters under three further PYTHONHASHSEED values',
 ]
 CHANNELS = [QubitChannel.READOUT, QubitChannel.MICROWAVE, QubitChannel.FLUX, QubitChannel.ALL]
-NAMES = ['D1', 'D2', 'D3', 'D4', 'D5', 'D6', 'D7', 'D8', 'D9', 'X1', 'X2', 'X3', 'X4', 'Z1', 'Z2', 'Z3', 'Z4', 'D10', 'd1', '', 'D1 ']
+NAMES = ['D1', 'D2', 'D3', 'D4', 'D5', 'D6', 'D7', 'D8', 'D9', 'X1', 'X2', 'X3', 'X4', 'Z1', 'Z2', 'Z3', 'Z4', 'D10', 'd1', '', 'D1 ', 'QL-3', 'chip0-D1', 'D1-X1']
 
 
 def ref_match(a, b):
@@ -27,14 +27,14 @@ def ref_match(a, b):
 
 class ChannelFamily(Family):
     name = 'channel-identifiers'
-    rule = ('all ordered triples of channel identifiers over qubits {0,1,2} x {READOUT, MICROWAVE, FLUX, ALL}: ==, !=, symmetry and list membership against the reference relation; '
+    rule = ('all ordered triples of channel identifiers over qubits {0,1,300} x {READOUT, MICROWAVE, FLUX, ALL}: ==, !=, symmetry and list membership against the reference relation; '
             'non-trivial = the triple contains a matching pair of distinct identifiers')
 
     def shards(self, tier):
         return list(range(12))
 
     def cases(self, tier, shard):
-        dom = [(q, c) for q in (0, 1, 2) for c in CHANNELS]
+        dom = [(q, c) for q in (0, 1, 300) for c in CHANNELS]
         a = dom[shard]
         for b in dom:
             for c in dom:
@@ -43,7 +43,8 @@ class ChannelFamily(Family):
     def run(self, case):
         res = Res()
         a, b, c = [(case[i], QubitChannel[case[i + 1]]) for i in (0, 2, 4)]
-        A, B, C = [ChannelIdentifier(_id=x[0], _channel=x[1]) for x in (a, b, c)]
+        # qubit indices are built as fresh int objects (identity of small ints is an interpreter detail, 300 is not cached)
+        A, B, C = [ChannelIdentifier(_id=int(str(x[0])), _channel=x[1]) for x in (a, b, c)]
         for (x, X), (y, Y) in (((a, A), (b, B)), ((b, B), (a, A)), ((a, A), (c, C)), ((b, B), (c, C))):
             want = ref_match(x, y)
             if (X == Y) != want:
